@@ -31,10 +31,49 @@ def tainted_programs(draw):
         if not loads:
             tree.body.append(ast.Expr(value=ast.Name(id='x', ctx=ast.Load())))
             loads = [tree.body[-1].value]
+        parents0 = {}
+        for n in ast.walk(tree):
+            for c in ast.iter_child_nodes(n):
+                parents0[id(c)] = n
+
+        def in_method(x):
+            q = parents0.get(id(x))
+            seen_func = False
+            while q is not None:
+                if isinstance(q, (ast.FunctionDef, ast.AsyncFunctionDef, ast.Lambda)):
+                    seen_func = True
+                elif isinstance(q, ast.ClassDef) and seen_func:
+                    return True
+                q = parents0.get(id(q))
+            return False
+        in_methods = [n for n in loads if in_method(n)]
+        force_class = bool(in_methods) and draw(st.integers(0, 9)) < 4
+        if force_class:
+            loads = in_methods
         node = loads[draw(st.integers(0, len(loads) - 1))]
         trig = draw(st.sampled_from(TRIGGERS))
         node.id = trig
         kind = 'name'
+        if force_class or draw(st.integers(0, 2)) == 0:
+            # a class whose body binds the same name while one of its methods uses the builtin: class scopes are skipped when
+            # resolving from nested functions, so this is still the builtin
+            parents = {}
+            for n in ast.walk(tree):
+                for c in ast.iter_child_nodes(n):
+                    parents[id(c)] = n
+            chain = []
+            q = parents.get(id(node))
+            while q is not None:
+                chain.append(q)
+                q = parents.get(id(q))
+            fi = [i for i, q in enumerate(chain) if isinstance(q, (ast.FunctionDef, ast.AsyncFunctionDef, ast.Lambda))]
+            if fi:
+                for q in chain[fi[0] + 1:]:
+                    if isinstance(q, ast.ClassDef):
+                        pos = 1 if (q.body and isinstance(q.body[0], ast.Expr) and isinstance(getattr(q.body[0], 'value', None), ast.Constant)) else 0
+                        q.body.insert(pos, ast.Assign(targets=[ast.Name(id=trig, ctx=ast.Store())], value=ast.Constant(value=1), lineno=1))
+                        kind = 'name+class-attribute-of-same-name'
+                        break
     ast.fix_missing_locations(tree)
     try:
         import warnings
